@@ -21,12 +21,20 @@ def canon_walk(root):
             continue
         seen[id(o)] = len(order)
         order.append(o)
-        for attr in ("_vertices", "_links", "_universes"):
-            for x in getattr(o, attr, None) or []:
+        # through the PUBLIC accessors (what a user of the copy sees; robust against renamed private fields)
+        for attr in ("vertices", "links", "universes"):
+            try:
+                xs = getattr(o, attr, None) or []
+            except Exception:  # noqa: BLE001
+                xs = []
+            for x in xs:
                 if x is not None:
                     stack.append(x)
-        for attr in ("_laws", "_applies_to"):
-            x = getattr(o, attr, None)
+        for attr in ("laws", "applies_to"):
+            try:
+                x = getattr(o, attr, None)
+            except Exception:  # noqa: BLE001
+                x = None
             if x is not None:
                 stack.append(x)
     return seen, order
@@ -40,13 +48,16 @@ def snapshot(root):
     out = []
     for o in order:
         d = {"cls": type(o).__module__ + "." + type(o).__qualname__, "uid": o.uid}
-        for attr in ("_vertices", "_links", "_universes"):
-            if hasattr(o, attr):
-                d[attr] = ids(getattr(o, attr))
-        for attr in ("_laws", "_applies_to"):
-            if hasattr(o, attr):
+        for attr in ("vertices", "links", "universes"):
+            if hasattr(type(o), attr):
+                try:
+                    d["_" + attr] = ids(getattr(o, attr))
+                except Exception as e:  # noqa: BLE001
+                    d["_" + attr] = "raise " + type(e).__name__
+        for attr in ("laws", "applies_to"):
+            if hasattr(type(o), attr):
                 x = getattr(o, attr)
-                d[attr] = None if x is None else seen.get(id(x), -1)
+                d["_" + attr] = None if x is None else seen.get(id(x), -1)
         extra = {}
         for k, v in vars(o).items():
             if k.startswith("_"):
